@@ -22,16 +22,41 @@ type VerifHooks struct {
 	WorkerIdle func()
 	MainIdle   func()
 	MainEvent  func(ev string, h uint64, v uint64)
+	// WorkerEvent is called when the worker loop starts ("run.start": more than once means it was
+	// restarted after a panic) and after its shutdown cleanup ("run.end").
+	WorkerEvent func(ev string)
 }
 
 var verifRegistry sync.Map // *WorkerLoop | *MainLoop -> *VerifHooks
+
+// verifWorkerDefault applies to worker loops that have no hooks of their own: MainLoop.Run creates
+// and starts its worker in one go, so a harness cannot install hooks on it in between.
+var verifWorkerDefault sync.Map // "default" -> *VerifHooks
+
+func VerifSetDefaultWorkerHooks(h *VerifHooks) {
+	if h == nil {
+		verifWorkerDefault.Delete("default")
+		return
+	}
+	verifWorkerDefault.Store("default", h)
+}
+
+func verifWorkerHooks(lh *WorkerLoop) *VerifHooks {
+	if h, ok := verifRegistry.Load(lh); ok {
+		return h.(*VerifHooks)
+	}
+	if h, ok := verifWorkerDefault.Load("default"); ok {
+		return h.(*VerifHooks)
+	}
+	return nil
+}
 
 func (lh *WorkerLoop) VerifSetHooks(h *VerifHooks) { verifRegistry.Store(lh, h) }
 func (m *MainLoop) VerifSetHooks(h *VerifHooks)    { verifRegistry.Store(m, h) }
 
 func verifWorkerIdle(lh *WorkerLoop) {
-	if h, ok := verifRegistry.Load(lh); ok && h.(*VerifHooks).WorkerIdle != nil {
-		h.(*VerifHooks).WorkerIdle()
+	if h := verifWorkerHooks(lh); h != nil && h.WorkerIdle != nil {
+		h.WorkerIdle()
 	}
 }
 
@@ -44,6 +69,12 @@ func verifMainIdle(m *MainLoop) {
 func verifMainEvent(m *MainLoop, ev string, h uint64, v uint64) {
 	if hk, ok := verifRegistry.Load(m); ok && hk.(*VerifHooks).MainEvent != nil {
 		hk.(*VerifHooks).MainEvent(ev, h, v)
+	}
+}
+
+func verifWorkerEvent(lh *WorkerLoop, ev string) {
+	if h := verifWorkerHooks(lh); h != nil && h.WorkerEvent != nil {
+		h.WorkerEvent(ev)
 	}
 }
 
